@@ -1,0 +1,12 @@
+//go:build verif
+
+// Verification hook for properties C08-C10. Add-only; compiled only with -tags verif.
+
+package callable
+
+// VerifC08Cancelled reports whether the call was started and its cancel function has been used
+// (Cancel resets awaitCancel to nil).
+func (c *Call) VerifC08Cancelled() bool { return c.await != nil && c.awaitCancel == nil }
+
+// VerifC08Started reports whether Start was called.
+func (c *Call) VerifC08Started() bool { return c.await != nil }
